@@ -38,54 +38,52 @@ def _spec():
         return json.load(fh)['signatures']
 
 
-def _items(line):
-    """factor / rhs strings of a rendered line (for the vocabulary test)"""
-    body = line.split(' | ')[0]
-    m = re.match(r'^(.*?) (\+=|=|\*=|/=) (.*)$', body)
-    if not m:
-        return [body]
-    if m.group(2) == '+=':
-        out = []
-        for t in m.group(3).split(' '):
-            out.extend(x for x in t[1:].split('·') if x)
-        return out
-    return [m.group(3)]
-
-
 def _recognised(lines):
+    """factors / right-hand sides of Line objects that are outside the vocabulary"""
     rxs = [re.compile(p) for p in VOCAB]
     bad = []
     for l in lines:
-        for it in _items(l):
-            if it == '1':
-                continue
+        items = [x for _, f in (l.terms or []) for x in f] if l.op == '+=' else [l.rhs or '']
+        for it in items:
             if not any(r.fullmatch(it) for r in rxs):
                 bad.append(it)
     return bad
+
+
+_LINE = re.compile(r'^(?P<t>.+?) (?P<op>\+=|=|\*=|/=|\w+=) (?P<b>.*)$')
+
+
+def _parse(text):
+    head = text.split(' | ')[0]
+    m = _LINE.match(head)
+    if not m:
+        return head, '', ''
+    return m.group('t'), m.group('op'), m.group('b')
 
 
 def _deps(seq):
     """ordered pairs (a, b), a before b, that are linked by a data dependency on a tracked name"""
     def base(t):
         m = re.match(r'^(L\.\w+|self\.\w+|\w+)', t)
-        return m.group(1)
+        return m.group(1) if m else t
 
     idx = {}
     named = []
+    parsed = []
     for t in seq:
         k = idx.get(t, 0)
         idx[t] = k + 1
         named.append(f'{t}#{k}')
+        parsed.append(_parse(t))
     pairs = set()
-    for i, a in enumerate(seq):
-        ta = base(a.split(' ')[0])
-        ba = a.split(' | ')[0]
+    for i in range(len(seq)):
+        full_a, op_a, body_a = parsed[i]
+        ta = base(full_a)
         for j in range(i + 1, len(seq)):
-            b = seq[j]
-            tb = base(b.split(' ')[0])
-            bb = b.split(' | ')[0]
-            body_b = bb.split(' ', 2)[2] if bb.count(' ') >= 2 else ''
-            body_a = ba.split(' ', 2)[2] if ba.count(' ') >= 2 else ''
+            full_b, op_b, body_b = parsed[j]
+            tb = base(full_b)
+            if full_a == full_b and op_a == '+=' and op_b == '+=':
+                continue  # accumulations into the same slot commute
             if ta == tb or re.search(rf'(?<![\w.]){re.escape(ta)}(?![\w])', body_b) or re.search(rf'(?<![\w.]){re.escape(tb)}(?![\w])', body_a):
                 pairs.add((named[i], named[j]))
     return pairs
@@ -105,7 +103,7 @@ def _check_sig(R, repo, rel, cn, method, spec):
     missing, extra = compare([_T(t) for t in found], exp['lines'], exp.get('alts'))
     construct = f'{key} :: normal-form signature'
     if missing or extra:
-        bad = _recognised(extra)
+        bad = _recognised([l for l in found_lines if l.text() in extra])
         if bad:
             raise AnalysisError(f'{w}: unrecognised idiom in a tracked quantity: {bad[:3]} - cannot compare against the reference signature')
         R.bad(construct, w, expected=missing, found=extra)
